@@ -49,6 +49,7 @@ class ValueGen:
         self.restarts_left = cfg.get("restarts", 0)
         self.restart_at = cfg.get("restart_at", [])
         self.dyn_cats = []  # [(category, qt)] requested by the registrar client during the run
+        self.lookahead_ops = {}
         self.swept = False
         self.swept_ro = False
         self.bursted = False
@@ -1250,6 +1251,11 @@ class ValueGen:
                 return None
             d = rng.choice(todo)
             self.requests = {}  # a unit registration drops the intern table: identity starts over
+            again = self.lookahead_ops.pop(d["sym"], [])
+            if again and not getattr(self, "plan", None):
+                # what was refused before the unit existed is asked again right after its registration
+                self.plan = [dict(a, c="calculator") for a in again[-3:]]
+                self.plan_sticky = True
             if d.get("callable"):
                 # conversion functions supplied by the caller (peers owned by the simulator: F2)
                 return self.op("reg.AddUnit.new_callable", "db", "AddUnit", [d["qt"], d["name"], d["sym"]] + self.peer_specs(d))
@@ -1308,6 +1314,7 @@ class ValueGen:
         if form == "cat_bad_limits":
             return self.op("reg.AddCategory.bad_limits", "db", "AddCategory", [name, b[0]], kw={"min_value": 10.0, "max_value": 1.0})
         self.dyn_cats.append((name, b[0]))
+        self.requests = {}  # every accepted registration drops the intern table: identity starts over
         if form == "cat_copy":
             return self.op("reg.AddCategory.copy", "db", "AddCategory", [name], kw={"from_category": self.cat_of(b)})
         kw = {}
@@ -1552,6 +1559,9 @@ class ValueGen:
                 if s is None:
                     return None
                 o = self.op("cv.GetValue", ref(s[0]), "GetValue", [nm])
+            if nm.startswith("simU"):
+                # remembered: once the unit exists, the very same request is a valid one
+                self.lookahead_ops.setdefault(nm, []).append({k: (list(v) if isinstance(v, list) else v) for k, v in o.items()})
             o["f"] = "F1.unknown_name"
             o["k"] = "flt.unknown_name." + o["k"]
             o["x"] = [{"o": "raises_any", "p": "C05", "id": "C05.loud", "why": "unknown_unit", "unit": nm}]
